@@ -10,8 +10,12 @@ package executors
 // NewBulkExecutor / NewChunkExecutor / With* / Add / Flush / Wait and the containers to the Lean container model
 // (Containers.lean, executed over its slice heap by the driver).
 //
-// ops:  new <k> bulk|chunk <max|def> <iv|def>     obs: max=<threshold of the container> iv=<pe.interval>
+// ops:  new <k> bulk|chunk <options>     obs: max=<threshold of the container> iv=<pe.interval>
+//                         <options> = `-` (none: the package defaults) or a comma-separated list, applied IN THIS ORDER,
+//                         of t<n> (WithBulkTasks / WithChunkBytes) and i<n> (WithBulkInterval / WithFlushInterval):
+//                         repeated options, interval before threshold, zero and negative values
 //       add <k> <x>       one task (x = 8*id + size code, as in TestVerifC11)      obs: c=<pending tasks> sz=<chunk bytes|->
+//                                                              [e=<Add calls that returned a non-nil error>]
 //       addn <k> <n> <code> <first id>   n tasks with consecutive ids and that size code     obs: as add
 //       flush <k>                                                                 obs: as add
 //       wait <k>          obs: b=<batches executed since the last wait, sorted by first task; tasks joined by '.',
@@ -19,10 +23,12 @@ package executors
 
 import (
 	"fmt"
+	"runtime"
 	"sort"
 	"strconv"
 	"strings"
 	"sync"
+	"sync/atomic"
 	"testing"
 	"time"
 
@@ -44,6 +50,7 @@ type c11qInst struct {
 	peek  func() (int, string)
 	mu    sync.Mutex
 	done  [][]int
+	errs  int // Add calls of the public wrappers that returned a non-nil error
 }
 
 func c11qSize(x int) int {
@@ -75,6 +82,80 @@ func c11qBatch(b []int) string {
 	return strings.Join(out, ".")
 }
 
+// ---- watchdog of the sequential harness: an operation of the public API that does not come back.
+// No operation of this harness blocks on the unchanged tree. If one has not returned after a grace period and every
+// goroutine of the package is parked in several consecutive goroutine dumps (nothing running, nothing runnable: a
+// starved machine shows runnable goroutines and is waited for), the executor is wedged: the observation is `stuck`,
+// and every later operation of the run returns `stuck` at once (the hung goroutine is left behind).
+
+var c11qWedged atomic.Bool
+
+func c11qAllParked() bool {
+	buf := make([]byte, 1<<18)
+	n := runtime.Stack(buf, true)
+	for _, blk := range strings.Split(string(buf[:n]), "\n\n") {
+		if !strings.HasPrefix(blk, "goroutine ") || !strings.Contains(blk, "go-zero/core/executors.") {
+			continue
+		}
+		nl := strings.IndexByte(blk, '\n')
+		if nl < 0 {
+			continue
+		}
+		hdr := blk[:nl]
+		if strings.Contains(blk, "c11qAllParked") {
+			continue // the watchdog itself
+		}
+		if strings.Contains(hdr, "[running") || strings.Contains(hdr, "[runnable") || strings.Contains(hdr, "[syscall") {
+			return false
+		}
+	}
+	return true
+}
+
+func c11qGuard(inner func(op []string) string) func(op []string) string {
+	return func(op []string) string {
+		if c11qWedged.Load() {
+			return "stuck"
+		}
+		ch := make(chan string, 1)
+		go func() {
+			defer func() {
+				if p := recover(); p != nil {
+					ch <- "PANIC " + strings.ReplaceAll(fmt.Sprint(p), "\n", " ")
+				}
+			}()
+			ch <- inner(op)
+		}()
+		grace := time.After(1500 * time.Millisecond)
+		hard := time.After(60 * time.Second)
+		select {
+		case o := <-ch:
+			return o
+		case <-grace:
+		}
+		parked := 0
+		for {
+			select {
+			case o := <-ch:
+				return o
+			case <-hard:
+				c11qWedged.Store(true)
+				return "stuck"
+			case <-time.After(20 * time.Millisecond):
+				if c11qAllParked() {
+					parked++
+				} else {
+					parked = 0
+				}
+				if parked >= 8 {
+					c11qWedged.Store(true)
+					return "stuck"
+				}
+			}
+		}
+	}
+}
+
 func c11qGen(r *verifh.Rng) []verifh.Section {
 	var secs []verifh.Section
 	n := verifh.Scale(30, 200)
@@ -85,12 +166,25 @@ func c11qGen(r *verifh.Rng) []verifh.Section {
 		kinds := make([]string, ninst)
 		mk := func(k int) {
 			kinds[k] = r.PickS("bulk", "chunk")
-			max := r.PickS("def", "def", "-1", "0", "1", "1", "2", "3", "5", "1000")
+			maxes := []string{"-1", "0", "1", "1", "2", "3", "5", "1000"}
 			if kinds[k] == "chunk" {
-				max = r.PickS("def", "-3", "0", "1", "1", "3", "5", "8", "12", "1048576")
+				maxes = []string{"-3", "0", "1", "1", "3", "5", "8", "12", "1048576"}
 			}
-			iv := r.PickS("def", "def", "0", "-5", "1", "1000000")
-			ops = append(ops, fmt.Sprintf("new %d %s %s %s", k, kinds[k], max, iv))
+			ivs := []string{"0", "-5", "1", "1000000"}
+			var opts []string
+			// every combination: none / only one kind / both in either order / a kind repeated (the last one wins)
+			for n := r.Pick(0, 0, 1, 1, 2, 2, 3, 4); n > 0; n-- {
+				if r.Chance(3, 5) {
+					opts = append(opts, "t"+r.PickS(maxes...))
+				} else {
+					opts = append(opts, "i"+r.PickS(ivs...))
+				}
+			}
+			o := "-"
+			if len(opts) > 0 {
+				o = strings.Join(opts, ",")
+			}
+			ops = append(ops, fmt.Sprintf("new %d %s %s", k, kinds[k], o))
 		}
 		for k := 0; k < ninst; k++ {
 			mk(k)
@@ -132,6 +226,11 @@ func TestVerifC11Seq(t *testing.T) {
 		insts := map[int]*c11qInst{}
 		obs := func(in *c11qInst) string {
 			c, sz := in.peek()
+			if in.errs > 0 {
+				n := in.errs
+				in.errs = 0
+				return fmt.Sprintf("c=%d sz=%s e=%d", c, sz, n)
+			}
 			return fmt.Sprintf("c=%d sz=%s", c, sz)
 		}
 		step := func(op []string) string {
@@ -140,11 +239,24 @@ func TestVerifC11Seq(t *testing.T) {
 			}
 			k := verifh.Atoi(op[1])
 			if op[0] == "new" {
-				if len(op) != 5 {
+				if len(op) != 4 {
 					return "bad-op"
 				}
 				if old := insts[k]; old != nil {
 					old.wait()
+				}
+				type optTok struct {
+					thr bool
+					v   int
+				}
+				var toks []optTok
+				if op[3] != "-" {
+					for _, o := range strings.Split(op[3], ",") {
+						if len(o) < 2 || (o[0] != 't' && o[0] != 'i') {
+							return "bad-op"
+						}
+						toks = append(toks, optTok{o[0] == 't', verifh.Atoi(o[1:])})
+					}
 				}
 				in := &c11qInst{}
 				exec := func(tasks []any) {
@@ -159,15 +271,20 @@ func TestVerifC11Seq(t *testing.T) {
 				switch op[2] {
 				case "bulk":
 					var opts []BulkOption
-					if op[3] != "def" {
-						opts = append(opts, WithBulkTasks(verifh.Atoi(op[3])))
-					}
-					if op[4] != "def" {
-						opts = append(opts, WithBulkInterval(time.Duration(verifh.Atoi(op[4]))))
+					for _, o := range toks {
+						if o.thr {
+							opts = append(opts, WithBulkTasks(o.v))
+						} else {
+							opts = append(opts, WithBulkInterval(time.Duration(o.v)))
+						}
 					}
 					be := NewBulkExecutor(exec, opts...)
 					in.pe = be.executor
-					in.add = func(x int) { _ = be.Add(x) }
+					in.add = func(x int) {
+						if err := be.Add(x); err != nil {
+							in.errs++
+						}
+					}
 					in.flush = be.Flush
 					in.wait = be.Wait
 					in.peek = func() (c int, sz string) {
@@ -179,15 +296,20 @@ func TestVerifC11Seq(t *testing.T) {
 					return fmt.Sprintf("max=%d iv=%d", be.container.maxTasks, int64(in.pe.interval))
 				case "chunk":
 					var opts []ChunkOption
-					if op[3] != "def" {
-						opts = append(opts, WithChunkBytes(verifh.Atoi(op[3])))
-					}
-					if op[4] != "def" {
-						opts = append(opts, WithFlushInterval(time.Duration(verifh.Atoi(op[4]))))
+					for _, o := range toks {
+						if o.thr {
+							opts = append(opts, WithChunkBytes(o.v))
+						} else {
+							opts = append(opts, WithFlushInterval(time.Duration(o.v)))
+						}
 					}
 					ce := NewChunkExecutor(exec, opts...)
 					in.pe = ce.executor
-					in.add = func(x int) { _ = ce.Add(x, c11qSize(x)) }
+					in.add = func(x int) {
+						if err := ce.Add(x, c11qSize(x)); err != nil {
+							in.errs++
+						}
+					}
 					in.flush = ce.Flush
 					in.wait = ce.Wait
 					in.peek = func() (c int, sz string) {
@@ -238,10 +360,13 @@ func TestVerifC11Seq(t *testing.T) {
 			}
 			return "bad-op"
 		}
-		return step, func() {
-			for _, in := range insts {
-				in.wait()
-			}
+		return c11qGuard(step), func() {
+			c11qGuard(func([]string) string {
+				for _, in := range insts {
+					in.wait()
+				}
+				return ""
+			})(nil)
 		}
 	})
 }
